@@ -331,7 +331,6 @@ func genC07Smb(r *Rng, tier string) []Case {
 func init() {
 	register(&Prop{ID: "C04", Ops: smbOps(), Gen: genC04})
 	register(&Prop{ID: "C05", Ops: smbOps(), Gen: genC05})
-	register(&Prop{ID: "C07", Ops: smbOps(), Gen: genC07Smb})
 	register(&Prop{ID: "SMBDEV", Ops: smbOps(), Gen: func(r *Rng, tier string) []Case {
 		loadGenCmds()
 		loadFactories()
